@@ -28,6 +28,7 @@ from .kernel import HarnessError, SimKilled
 from .primitives import SimBarrier, SimCondition, SimEvent, SimLock
 
 RUN, CLOSE, TERMINATE = "RUN", "CLOSE", "TERMINATE"
+_ABSENT = object()
 
 
 class SimAsyncResult:
@@ -126,7 +127,18 @@ class SimPool:
         me = k.current
         k.yield_point("W:start")
         if self.initializer is not None:
+            # module globals that the pool initializer assigns are worker-process state: in production they exist only
+            # in the (short-lived) worker processes and never in the parent.  They are recorded so that the engine can
+            # put the parent's values back when the call is over.
+            g = getattr(self.initializer, "__globals__", None)
+            before = dict(g) if g is not None else None
             self.initializer(*self.initargs)
+            if before is not None:
+                for name, val in g.items():
+                    if name not in before or before[name] is not val:
+                        key = (id(g), name)
+                        if key not in self.sim.worker_side_globals:
+                            self.sim.worker_side_globals[key] = (g, name, before.get(name, _ABSENT))
         completed = 0
         while self.maxtasks is None or completed < self.maxtasks:
             task = self._get_task()
@@ -328,6 +340,15 @@ class SimMP:
         self._wid = 0
         self._id = 0
         self.shared_memory = None     # set by the sandbox
+        self.worker_side_globals = {}
+
+    def restore_worker_side_globals(self):
+        """Forget what only worker processes would have known (see SimPool._worker_main)."""
+        for (g, name, old) in self.worker_side_globals.values():
+            if old is _ABSENT:
+                g.pop(name, None)
+            else:
+                g[name] = old
 
     def next_worker_id(self):
         self._wid += 1
